@@ -339,9 +339,13 @@ namespace
     size_t m_i;
     doneness m_doneness;
 
+    // IMPORT is the chain of imports through which DIE itself was
+    // reached, if any: what is found below DIE is seen in the same
+    // context.
     die_it_producer (std::shared_ptr <dwfl_context> dwctx, Dwarf_Die die,
-		     doneness d)
+		     doneness d, std::shared_ptr <value_die> import = nullptr)
       : m_dwctx {dwctx}
+      , m_import {d == doneness::cooked ? import : nullptr}
       , m_i {0}
       , m_doneness {d}
     {
@@ -484,10 +488,11 @@ namespace
 {
   std::unique_ptr <value_producer <value_die>>
   make_die_child_producer (std::shared_ptr <dwfl_context> dwctx,
-			   Dwarf_Die parent, doneness d)
+			   Dwarf_Die parent, doneness d,
+			   std::shared_ptr <value_die> import)
   {
     return std::make_unique <die_it_producer <child_iterator>>
-      (dwctx, parent, d);
+      (dwctx, parent, d, import);
   }
 }
 
@@ -496,7 +501,8 @@ std::unique_ptr <value_producer <value_die>>
 op_child_die::operate (std::unique_ptr <value_die> a) const
 {
   return make_die_child_producer (a->get_dwctx (), a->get_die (),
-				  a->get_doneness ());
+				  a->get_doneness (),
+				  a->is_cooked () ? a->get_import () : nullptr);
 }
 
 std::string
